@@ -77,6 +77,7 @@ class World:
         self.virtual_time = True
         self.exit_hooks = []
         self.seq_horizon = None          # absolute virtual time or None
+        self.sig_after_acquire = []      # (pid, sem): see _op
 
     @property
     def now(self):
@@ -201,11 +202,18 @@ def _after_op():
 
 def _op(fn):
     import functools
+    name = fn.__name__
 
     @functools.wraps(fn)
     def wrapper(*a, **kw):
         r = fn(*a, **kw)
-        _after_op()
+        vt = current()
+        if vt is not None and vt.intr and not vt.killed:
+            if name == 'acquire' and r and _world is not None:
+                # handler about to run between the semaphore being taken and
+                # the caller's ``with`` block being entered
+                _world.sig_after_acquire.append((vt.pid, a[0].handle))
+            _after_op()
         return r
     return wrapper
 
